@@ -18,7 +18,13 @@
    Ok (nil, mask) for Ok mask, Ok (error, b) for Fail — the mask is untouched when an error is returned —, Panic
    for Panic.
    Fuel: only newIntSet is recursive (depth 2: []interface{} -> []int); every statement that can reach it holds
-   for every fuel >= 2. *)
+   for every fuel >= 2.
+   Enum columns: enumVal(i) is a uint8, so the equality with the model needs length values <= 256 (col_okE; the
+   factory never builds more than 255).  The kernels see the ranks only.  like / ilike / in of ecolumn (the bitset
+   builders filterLike / in) are entries of comparator tables, i.e. boundary: m_eLike, m_eIn.
+   Composition: gc_filter_ext (the generated clause dispatcher gives the same answer for two column levels that
+   agree on frames with the columns of the start frame; filtering never touches the columns) and
+   g_QFrame_Filter_eq' (generated QFrame.Filter over generated QFrame.filter = frame_filter). *)
 From QF Require Import Base.Prelude Base.KernelSyntax Gen.GenConsts Gen.GenTables Gen.GenKernels.
 From QF Require Import Gen.GenFilterClause Gen.GenFilterDispatch.
 From QF Require Import Model.Frame Model.Bits Model.Kernel Model.Filter Proofs.GenFilterClauseProofs.
@@ -625,6 +631,129 @@ Proof.
           | (inversion H; subst; now rewrite ?map_length) ].
 Qed.
 
+(* ------------------------------------------------------------------ ecolumn *)
+
+Lemma base_env_enum d vs st y k : base_env (ECol d vs st) y k = base_env (ECol d [] false) y k.
+Proof. reflexivity. Qed.
+Lemma base_env_enum2 x d vs st k : base_env x (Some (ECol d vs st)) k = base_env x (Some (ECol d [] false)) k.
+Proof. reflexivity. Qed.
+
+Lemma gd_e_equalTypes_loop (v1 : list bytes) : forall (pre rest : list bytes),
+  length v1 = length rest ->
+  gd_e_equalTypes_loop1 v1 (Z.of_nat (length pre)) (pre ++ rest) = Ok (list_eqb bytes_eqb v1 rest).
+Proof.
+  induction v1 as [|x v1 IH]; intros pre rest H.
+  - destruct rest; [reflexivity|discriminate].
+  - destruct rest as [|y rest]; [discriminate|]. cbn [gd_e_equalTypes_loop1 list_eqb].
+    rewrite gdp_index, nth_error_app2 by lia. rewrite Nat.sub_diag. cbn [nth_error of_option obind].
+    destruct (bytes_eqb x y); cbn [negb andb]; [|reflexivity].
+    rewrite (gdp_len_snoc pre y). replace (pre ++ y :: rest) with ((pre ++ [y]) ++ rest) by now rewrite <- app_assoc.
+    apply IH. cbn in H. lia.
+Qed.
+
+Lemma gd_e_equalTypes_eq d vs st d2 vs2 st2 :
+  gd_e_equalTypes d vs st d2 vs2 st2 = Ok (equal_types vs (length d) vs2 (length d2)).
+Proof.
+  unfold gd_e_equalTypes, equal_types.
+  destruct (Nat.eqb (length vs) (length vs2)) eqn:E1.
+  - apply Nat.eqb_eq in E1. replace (Z.of_nat (length vs) =? Z.of_nat (length vs2)) with true by lia.
+    destruct (Nat.eqb (length d) (length d2)) eqn:E2.
+    + apply Nat.eqb_eq in E2. replace (Z.of_nat (length d) =? Z.of_nat (length d2)) with true by lia.
+      cbn [negb orb andb]. exact (gd_e_equalTypes_loop vs [] vs2 E1).
+    + apply Nat.eqb_neq in E2. replace (Z.of_nat (length d) =? Z.of_nat (length d2)) with false by lia. reflexivity.
+  - apply Nat.eqb_neq in E1. replace (Z.of_nat (length vs) =? Z.of_nat (length vs2)) with false by lia. reflexivity.
+Qed.
+
+(* for i := range bIndex { bIndex[i] = true } *)
+Lemma gd_e_fill_loop : forall (rest pre l : list bool), length l = length rest ->
+  gd_e_Column_filterBuiltIn_loop1 l (Z.of_nat (length pre)) (pre ++ rest) = Ok (pre ++ map (fun _ => true) rest).
+Proof.
+  induction rest as [|x rest IH]; intros pre l H.
+  - destruct l; [reflexivity|discriminate].
+  - destruct l as [|y l]; [discriminate|]. cbn [gd_e_Column_filterBuiltIn_loop1 map].
+    rewrite gdp_update_mid. cbn [obind]. rewrite (gdp_len_snoc pre true), IH by (cbn in H; lia).
+    now rewrite <- app_assoc.
+Qed.
+
+Lemma gd_enumVal_small (k : nat) : (k < 256)%nat -> gd_enumVal (Z.of_nat k) = N.of_nat k.
+Proof. intro H. unfold gd_enumVal. rewrite Z.mod_small by lia. lia. Qed.
+
+Section EnumColumn.
+  Variable mt : matcher_table.
+
+  Notation G_e_builtin := (@gd_e_Column_filterBuiltIn nat unit N SCm (list bytes) bitset FN1m FN2m m_new_error m_propagate (fun l => l)
+                             m_e0 m_e1 m_e2 (m_eLike mt) m_eIn m_eBitset).
+  Notation G_e_Filter := (@gd_e_Column_Filter nat unit N SCm (list bytes) bitset FN1m FN2m m_new_error m_propagate (fun l => l)
+                             m_e0 m_e1 m_e2 (m_eLike mt) m_eIn
+                             (fun d vs st => m_c1 (ECol d vs st)) (fun d vs st => m_c2 (ECol d vs st) other_e) m_eBitset).
+
+  (* the search for the constant among the values: enumVal(i) is the index as long as it fits a uint8 *)
+  Lemma gd_e_find_loop d strict index cmp b s fname : forall (vs : list bytes) (k : nat),
+    (k + length vs <= 256)%nat ->
+    @gd_e_Column_filterBuiltIn_loop2 nat unit m_new_error m_e1 vs (Z.of_nat k) d strict index cmp b s fname
+    = match find_value vs s (N.of_nat k) with
+      | Some r => res_go b (run L_e fname (base_env (ECol d [] false) None (VE r)) index b)
+      | None => if strict then Ok (Some tt, b)
+                else if bytes_eqb cmp neq_name then Ok (None, map (fun _ => true) b) else Ok (None, b)
+      end.
+  Proof.
+    induction vs as [|v vs IH]; intros k Hk.
+    - cbn [gd_e_Column_filterBuiltIn_loop2 find_value]. destruct strict; [reflexivity|].
+      change (bs 2 0x213d) with neq_name. destruct (bytes_eqb cmp neq_name); [|reflexivity].
+      pose proof (gd_e_fill_loop b [] b eq_refl) as HL. cbn [length app Z.of_nat] in HL. rewrite HL. reflexivity.
+    - cbn [gd_e_Column_filterBuiltIn_loop2 find_value]. destruct (bytes_eqb v s).
+      + rewrite gd_enumVal_small by (cbn in Hk; lia). unfold m_e1. on_run; reflexivity.
+      + replace (Z.of_nat k + 1) with (Z.of_nat (S k)) by lia.
+        replace (N.of_nat k + 1)%N with (N.of_nat (S k)) by lia. apply IH. cbn in Hk. lia.
+  Qed.
+
+  Ltac on_tbl_e t :=
+    unfold run_tbl; rewrite ?gdp_assoc; destruct (assocb _ t) as [?fname|]; cbn [gd_lookup negb obind];
+    [on_run; reflexivity|reflexivity].
+
+  Lemma gd_e_builtin_eq d vs st index cmp (a : rarg) b : (length vs <= 256)%nat ->
+    G_e_builtin d vs st index cmp (rarg_go a) b = res_go b (e_filter_builtin mt d vs st index cmp a b).
+  Proof.
+    intro Hlen. unfold gd_e_Column_filterBuiltIn, e_filter_builtin. cbv zeta.
+    destruct a as [c|c2]; cbn [rarg_go].
+    - rewrite gd_ifaceStrs_eq. cbn [obind].
+      destruct (norm_strs c); cbn [arg_go]; try reflexivity.
+      + rewrite gdp_assoc. destruct (assocb cmp t_e_filter1) as [fname|]; cbn [gd_lookup negb obind].
+        * pose proof (gd_e_find_loop d st index cmp b s fname vs 0%nat ltac:(lia)) as HL.
+          cbn [Z.of_nat N.of_nat] in HL. rewrite HL.
+          destruct (find_value vs s 0) as [r|]; [reflexivity|].
+          destruct st; [reflexivity|]. destruct (bytes_eqb cmp neq_name); reflexivity.
+        * rewrite gdp_assoc. destruct (assocb cmp t_e_filterLike) as [fname|]; cbn [gd_lookup negb obind]; [|reflexivity].
+          unfold m_eLike. destruct (is_like fname) as [flag|]; [|reflexivity].
+          destruct (find_matcher mt s flag) as [[m|]|]; cbn [obind gd_isnil negb]; try reflexivity.
+          unfold m_eBitset. on_run; reflexivity.
+      + rewrite gdp_assoc. destruct (assocb cmp t_e_filterN) as [fname|]; cbn [gd_lookup negb obind]; [|reflexivity].
+        unfold m_eIn, m_eBitset. cbn [obind]. on_run; reflexivity.
+      + unfold m_e0. change (base_env (ECol d vs st) None VBad) with (base_env (ECol d [] false) None VBad).
+        on_tbl_e t_e_filter0.
+    - rewrite gd_ifaceStrs_col. cbn [obind]. destruct c2; cbn [col_go]; try reflexivity.
+      rewrite gd_e_equalTypes_eq. cbn [obind].
+      destruct (equal_types vs (length d) values (length d0)); cbn [negb]; [|reflexivity].
+      unfold m_e2. change (base_env (ECol d vs st) (Some (ECol d0 values false)) VBad)
+        with (base_env (ECol d [] false) (Some (ECol d0 [] false)) VBad).
+      on_tbl_e t_e_filter2.
+  Qed.
+
+  (* Column.Filter of ecolumn = the model's col_filter on an enum column; premise: the value list fits a uint8 rank *)
+  Theorem gd_e_Filter_eq d vs st index (cmp : fcmp) (a : rarg) b : (length vs <= 256)%nat ->
+    G_e_Filter d vs st index (cmp_go cmp) (rarg_go a) b = res_go b (col_filter mt (ECol d vs st) index cmp a b).
+  Proof.
+    intro Hlen. unfold gd_e_Column_Filter.
+    destruct cmp as [s|t tbl|t tbl|]; cbn [cmp_go col_filter].
+    - rewrite (gd_e_builtin_eq d vs st index s a b Hlen). destruct (e_filter_builtin mt d vs st index s a b); reflexivity.
+    - destruct t; cbn; try reflexivity. unfold m_c1. cbn [letter_of]. on_run; reflexivity.
+    - destruct t; cbn; try reflexivity. unfold m_c2.
+      destruct a as [c|c2]; [destruct c; reflexivity|].
+      destruct c2; cbn; try reflexivity. on_run; reflexivity.
+    - reflexivity.
+  Qed.
+End EnumColumn.
+
 (* ------------------------------------------------------------------ QFrame.filter *)
 
 Lemma gdp_ofold_cons {X Y} (F : Y -> X -> outcome Y) x l init :
@@ -692,9 +821,16 @@ Local Arguments float_slice : simpl never.
 Definition col_ok (c : coldata) : Prop := match c with ECol _ _ _ => False | _ => True end.
 Definition frame_cols_ok (f : frame) : Prop := forall n c, lookup_col f n = Some c -> col_ok c.
 
+(* ... and with enum columns whose value list fits a uint8 rank (ecolumn: at most 255 values) *)
+Definition col_okE (c : coldata) : Prop := match c with ECol _ vs _ => (length vs <= 256)%nat | _ => True end.
+Definition frame_cols_okE (f : frame) : Prop := forall n c, lookup_col f n = Some c -> col_okE c.
+
 Section FrameFilter.
   Variable f2i : N -> Z.
   Variable mt : matcher_table.
+  (* the columns for which the dispatcher is known to agree with the model *)
+  Variable P : coldata -> Prop.
+  Hypothesis HPF : forall d, P (FCol d).
 
   Definition m_cbn (f : frame) (k : bytes) : option gcolumn := option_map col_go (lookup_col f k).
 
@@ -731,6 +867,20 @@ Section FrameFilter.
   Definition after_leaf (f : frame) (r : outcome (list bool)) (k : list bool -> outcome frame) : outcome frame :=
     match r with Ok b' => k b' | Fail => Ok (with_err f) | Panic => Panic end.
 
+  Theorem gd_Column_Filter_eqE c fuel index (cmp : fcmp) (a : rarg) b : col_okE c -> (2 <= fuel)%nat -> rarg_ok f2i a ->
+    G_Col fuel (col_go c) index (cmp_go cmp) (rarg_go a) b = res_go b (col_filter mt c index cmp a b).
+  Proof.
+    intros Hc Hf Ha. unfold gd_Column_Filter. destruct c; cbn [col_go].
+    - apply gd_i_Filter_eq; assumption.
+    - apply gd_f_Filter_eq.
+    - apply gd_b_Filter_eq.
+    - apply gd_s_Filter_eq.
+    - apply gd_e_Filter_eq. exact Hc.
+  Qed.
+
+  Hypothesis HPcol : forall c fuel index (cmp : fcmp) (a : rarg) b, P c -> (2 <= fuel)%nat -> rarg_ok f2i a ->
+    G_Col fuel (col_go c) index (cmp_go cmp) (rarg_go a) b = res_go b (col_filter mt c index cmp a b).
+
   Lemma gdp_colname_match (a : farg) :
     match arg_go a with gd_any_ColumnName y => (y, true) | _ => (@nil N, false) end
     = match a with AColName n => (n, true) | _ => ([], false) end.
@@ -743,7 +893,7 @@ Section FrameFilter.
 
   (* the part of the loop body after the argument has been resolved: Inverse handling, Err exit, next iteration *)
   Ltac use_col Hs Ha Hf :=
-    rewrite gd_Column_Filter_eq by (first [exact Hs|exact Ha|exact Hf|exact I]).
+    rewrite HPcol by (first [exact Hs|exact Ha|exact Hf]).
 
   Lemma m_Err_nil' f : negb (gd_isnil (m_Err f)) = ferr f.
   Proof. unfold m_Err. now destruct (ferr f). Qed.
@@ -753,7 +903,7 @@ Section FrameFilter.
     = after_leaf f X (fun a => after_leaf f (G a) K).
   Proof. destruct X; reflexivity. Qed.
 
-  Lemma gd_filter_loop2_eq fuel f : (2 <= fuel)%nat -> frame_cols_ok f -> forall ls b,
+  Lemma gd_filter_loop2_eq fuel f : (2 <= fuel)%nat -> (forall n c, lookup_col f n = Some c -> P c) -> forall ls b,
     Forall (fun l => arg_ok f2i (larg l)) ls ->
     G_loop2 (map leaf_go ls) fuel f b
     = after_leaf f (ofold (fun b l => filter_leaf mt f l b) ls b) (fun b' => do i <- index_filter (ix f) b'; Ok (with_ix f i)).
@@ -767,7 +917,7 @@ Section FrameFilter.
       pose proof (Hcols _ _ Es) as Hs.
       rewrite gdp_colname_match.
       (* the tail, for a resolved column s' and argument a *)
-      assert (Tail : forall (s' : coldata) (a : rarg), col_ok s' -> rarg_ok f2i a ->
+      assert (Tail : forall (s' : coldata) (a : rarg), P s' -> rarg_ok f2i a ->
         (do (v_bIndex, v_err) <-
          (if linv l
           then
@@ -870,22 +1020,47 @@ Section FrameFilter.
       unfold m_cbn at 1. destruct (lookup_col f n) as [argc|] eqn:En; cbn [option_map gd_lookup negb obind]; [|reflexivity].
       pose proof (Hcols _ _ En) as Hargc.
       destruct s as [d|d|d|d|d vs st], argc as [d2|d2|d2|d2|d2 vs2 st2];
-        try (exfalso; exact Hs); try (exfalso; exact Hargc);
         cbn [col_go]; cbv beta iota zeta; cbn [obind]; rewrite ?gd_FloatSlice_eq; cbn [obind];
-        first [ exact (Tail (FCol (float_slice d)) (RCol (FCol d2)) I I)
-              | exact (Tail (FCol d) (RCol (FCol (float_slice d2))) I I)
-              | exact (Tail (ICol d) (RCol (ICol d2)) I I) | exact (Tail (ICol d) (RCol (BCol d2)) I I)
-              | exact (Tail (ICol d) (RCol (SCol d2)) I I)
-              | exact (Tail (FCol d) (RCol (FCol d2)) I I) | exact (Tail (FCol d) (RCol (BCol d2)) I I)
-              | exact (Tail (FCol d) (RCol (SCol d2)) I I)
-              | exact (Tail (BCol d) (RCol (ICol d2)) I I) | exact (Tail (BCol d) (RCol (FCol d2)) I I)
-              | exact (Tail (BCol d) (RCol (BCol d2)) I I) | exact (Tail (BCol d) (RCol (SCol d2)) I I)
-              | exact (Tail (SCol d) (RCol (ICol d2)) I I) | exact (Tail (SCol d) (RCol (FCol d2)) I I)
-              | exact (Tail (SCol d) (RCol (BCol d2)) I I) | exact (Tail (SCol d) (RCol (SCol d2)) I I) ].
+        first [ exact (Tail (FCol (float_slice d)) (RCol (FCol (float_slice d2))) ltac:(first [exact Hs|apply HPF]) I)
+              | exact (Tail (FCol (float_slice d)) (RCol (ICol d2)) ltac:(first [exact Hs|apply HPF]) I)
+              | exact (Tail (FCol (float_slice d)) (RCol (FCol d2)) ltac:(first [exact Hs|apply HPF]) I)
+              | exact (Tail (FCol (float_slice d)) (RCol (BCol d2)) ltac:(first [exact Hs|apply HPF]) I)
+              | exact (Tail (FCol (float_slice d)) (RCol (SCol d2)) ltac:(first [exact Hs|apply HPF]) I)
+              | exact (Tail (FCol (float_slice d)) (RCol (ECol d2 vs2 st2)) ltac:(first [exact Hs|apply HPF]) I)
+              | exact (Tail (ICol d) (RCol (FCol (float_slice d2))) ltac:(first [exact Hs|apply HPF]) I)
+              | exact (Tail (ICol d) (RCol (ICol d2)) ltac:(first [exact Hs|apply HPF]) I)
+              | exact (Tail (ICol d) (RCol (FCol d2)) ltac:(first [exact Hs|apply HPF]) I)
+              | exact (Tail (ICol d) (RCol (BCol d2)) ltac:(first [exact Hs|apply HPF]) I)
+              | exact (Tail (ICol d) (RCol (SCol d2)) ltac:(first [exact Hs|apply HPF]) I)
+              | exact (Tail (ICol d) (RCol (ECol d2 vs2 st2)) ltac:(first [exact Hs|apply HPF]) I)
+              | exact (Tail (FCol d) (RCol (FCol (float_slice d2))) ltac:(first [exact Hs|apply HPF]) I)
+              | exact (Tail (FCol d) (RCol (ICol d2)) ltac:(first [exact Hs|apply HPF]) I)
+              | exact (Tail (FCol d) (RCol (FCol d2)) ltac:(first [exact Hs|apply HPF]) I)
+              | exact (Tail (FCol d) (RCol (BCol d2)) ltac:(first [exact Hs|apply HPF]) I)
+              | exact (Tail (FCol d) (RCol (SCol d2)) ltac:(first [exact Hs|apply HPF]) I)
+              | exact (Tail (FCol d) (RCol (ECol d2 vs2 st2)) ltac:(first [exact Hs|apply HPF]) I)
+              | exact (Tail (BCol d) (RCol (FCol (float_slice d2))) ltac:(first [exact Hs|apply HPF]) I)
+              | exact (Tail (BCol d) (RCol (ICol d2)) ltac:(first [exact Hs|apply HPF]) I)
+              | exact (Tail (BCol d) (RCol (FCol d2)) ltac:(first [exact Hs|apply HPF]) I)
+              | exact (Tail (BCol d) (RCol (BCol d2)) ltac:(first [exact Hs|apply HPF]) I)
+              | exact (Tail (BCol d) (RCol (SCol d2)) ltac:(first [exact Hs|apply HPF]) I)
+              | exact (Tail (BCol d) (RCol (ECol d2 vs2 st2)) ltac:(first [exact Hs|apply HPF]) I)
+              | exact (Tail (SCol d) (RCol (FCol (float_slice d2))) ltac:(first [exact Hs|apply HPF]) I)
+              | exact (Tail (SCol d) (RCol (ICol d2)) ltac:(first [exact Hs|apply HPF]) I)
+              | exact (Tail (SCol d) (RCol (FCol d2)) ltac:(first [exact Hs|apply HPF]) I)
+              | exact (Tail (SCol d) (RCol (BCol d2)) ltac:(first [exact Hs|apply HPF]) I)
+              | exact (Tail (SCol d) (RCol (SCol d2)) ltac:(first [exact Hs|apply HPF]) I)
+              | exact (Tail (SCol d) (RCol (ECol d2 vs2 st2)) ltac:(first [exact Hs|apply HPF]) I)
+              | exact (Tail (ECol d vs st) (RCol (FCol (float_slice d2))) ltac:(first [exact Hs|apply HPF]) I)
+              | exact (Tail (ECol d vs st) (RCol (ICol d2)) ltac:(first [exact Hs|apply HPF]) I)
+              | exact (Tail (ECol d vs st) (RCol (FCol d2)) ltac:(first [exact Hs|apply HPF]) I)
+              | exact (Tail (ECol d vs st) (RCol (BCol d2)) ltac:(first [exact Hs|apply HPF]) I)
+              | exact (Tail (ECol d vs st) (RCol (SCol d2)) ltac:(first [exact Hs|apply HPF]) I)
+              | exact (Tail (ECol d vs st) (RCol (ECol d2 vs2 st2)) ltac:(first [exact Hs|apply HPF]) I) ].
   Qed.
 
   (* QFrame.filter = the model's filter_leaves *)
-  Theorem gd_QFrame_filter_eq fuel f ls : (2 <= fuel)%nat -> frame_cols_ok f ->
+  Theorem gd_QFrame_filter_gen fuel f ls : (2 <= fuel)%nat -> (forall n c, lookup_col f n = Some c -> P c) ->
     Forall (fun l => arg_ok f2i (larg l)) ls ->
     G_filter fuel f (map leaf_go ls) = filter_leaves mt f ls.
   Proof.
@@ -895,6 +1070,29 @@ Section FrameFilter.
     destruct (ofold _ ls _); reflexivity.
   Qed.
 End FrameFilter.
+
+(* without enum columns (the first version of the theorem) and with them *)
+Theorem gd_QFrame_filter_eq f2i mt fuel f ls : (2 <= fuel)%nat -> frame_cols_ok f ->
+  Forall (fun l => arg_ok f2i (larg l)) ls ->
+  @gd_QFrame_filter nat unit N SCm (list bytes) bitset FN1m FN2m frame m_new_error m_propagate m_sprintf f_isnan f2i i2f (fun l => l)
+       m_Err ix m_withErr with_ix m_cbn
+       m_i1 m_iN m_i2 m_i0 m_f0 m_f1 m_f2 m_b1 m_b2 m_s0 (m_s1 mt) m_sN m_s2 m_e0 m_e1 m_e2 (m_eLike mt) m_eIn
+       (fun d => m_c1 (ICol d)) (fun d => m_c2 (ICol d) other_i) (fun d => m_c1 (FCol d)) (fun d => m_c2 (FCol d) other_f)
+       (fun d => m_c1 (BCol d)) (fun d => m_c2 (BCol d) other_b) (fun d => m_c1 (SCol d)) (fun d => m_c2 (SCol d) other_s)
+       (fun d vs st => m_c1 (ECol d vs st)) (fun d vs st => m_c2 (ECol d vs st) other_e) m_eBitset
+       fuel f (map leaf_go ls) = filter_leaves mt f ls.
+Proof. exact (gd_QFrame_filter_gen f2i mt col_ok (fun _ => I) (gd_Column_Filter_eq f2i mt) fuel f ls). Qed.
+
+Theorem gd_QFrame_filter_eqE f2i mt fuel f ls : (2 <= fuel)%nat -> frame_cols_okE f ->
+  Forall (fun l => arg_ok f2i (larg l)) ls ->
+  @gd_QFrame_filter nat unit N SCm (list bytes) bitset FN1m FN2m frame m_new_error m_propagate m_sprintf f_isnan f2i i2f (fun l => l)
+       m_Err ix m_withErr with_ix m_cbn
+       m_i1 m_iN m_i2 m_i0 m_f0 m_f1 m_f2 m_b1 m_b2 m_s0 (m_s1 mt) m_sN m_s2 m_e0 m_e1 m_e2 (m_eLike mt) m_eIn
+       (fun d => m_c1 (ICol d)) (fun d => m_c2 (ICol d) other_i) (fun d => m_c1 (FCol d)) (fun d => m_c2 (FCol d) other_f)
+       (fun d => m_c1 (BCol d)) (fun d => m_c2 (BCol d) other_b) (fun d => m_c1 (SCol d)) (fun d => m_c2 (SCol d) other_s)
+       (fun d vs st => m_c1 (ECol d vs st)) (fun d vs st => m_c2 (ECol d vs st) other_e) m_eBitset
+       fuel f (map leaf_go ls) = filter_leaves mt f ls.
+Proof. exact (gd_QFrame_filter_gen f2i mt col_okE (fun _ => I) (gd_Column_Filter_eqE f2i mt) fuel f ls). Qed.
 
 (* ------------------------------------------------------------------ a C02 leaf theorem on the translated text *)
 
@@ -965,3 +1163,256 @@ Lemma g_QFrame_filter_leaf f2i mt fuel f (l : leaf) (s : nat -> bool) (i : list 
   = do r <- index_filter i (mask_or (map (fun _ => false) i) (map s i)); Ok (with_ix (with_ix f i) r).
 Proof. exact (gd_filter_single_leaf f2i mt fuel f l s i p0). Qed.
 
+
+(* ------------------------------------------------------------------ composition with the clause level *)
+
+From QF Require Import Proofs.FilterTypedFrame.
+
+Section Compose.
+  Variable mt : matcher_table.
+
+  Lemma filter_leaves_cols f ls r : filter_leaves mt f ls = Ok r -> cols r = cols f.
+  Proof.
+    unfold filter_leaves. destruct (ferr f); [intro H; now inversion H|].
+    destruct (ofold _ ls _) as [b| |]; try discriminate.
+    - destruct (index_filter (ix f) b); cbn; intro H; inversion H; reflexivity.
+    - intro H; inversion H; reflexivity.
+  Qed.
+
+  Lemma or_frames_cols f acc nf : cols nf = cols f -> (forall a, acc = Some a -> cols a = cols f) ->
+    cols (or_frames f acc nf) = cols f.
+  Proof.
+    unfold or_frames. destruct acc as [a|]; [|auto]. intros H1 H2. specialize (H2 a eq_refl).
+    destruct (ferr a); [auto|]. destruct (ferr nf); auto.
+  Qed.
+
+  Lemma or_loop_cols g cs : Forall (fun c => forall g r, clause_filter mt c g = Ok r -> cols r = cols g) cs ->
+    forall pending acc r, (forall a, acc = Some a -> cols a = cols g) ->
+    or_loop mt (fun c' g' => clause_filter mt c' g') g cs pending acc = Ok r -> cols r = cols g.
+  Proof.
+    induction 1 as [|c cs Hc Hcs IH]; intros pending acc r Hacc H.
+    - rewrite or_loop_nil in H. unfold or_flush in H. destruct pending as [|l0 pd].
+      + cbn [obind] in H. destruct acc as [a|]; [|discriminate]. inversion H; subst. now apply Hacc.
+      + destruct (filter_leaves mt g (rev (l0 :: pd))) as [nf| |] eqn:E; cbn [obind] in H; try discriminate.
+        inversion H; subst. apply or_frames_cols; [exact (filter_leaves_cols _ _ _ E)|exact Hacc].
+    - destruct (is_leafb c) eqn:El.
+      + destruct c; try discriminate. rewrite or_loop_leaf in H. exact (IH _ _ _ Hacc H).
+      + rewrite (or_loop_other mt _ _ _ _ _ _ El) in H. unfold or_flush in H.
+        assert (Hfl : forall acc', match pending with
+                                  | [] => Ok acc
+                                  | _ :: _ => do nf <- filter_leaves mt g (rev pending); Ok (Some (or_frames g acc nf))
+                                  end = Ok acc' -> forall a, acc' = Some a -> cols a = cols g).
+        { intros acc' Hf. destruct pending as [|l0 pd]; [inversion Hf; subst; exact Hacc|].
+          destruct (filter_leaves mt g (rev (l0 :: pd))) as [nf| |] eqn:E; cbn [obind] in Hf; try discriminate.
+          inversion Hf; subst. intros a Ha. inversion Ha; subst.
+          apply or_frames_cols; [exact (filter_leaves_cols _ _ _ E)|exact Hacc]. }
+        destruct (match pending with [] => Ok acc | _ :: _ => _ end) as [acc'| |]; cbn [obind] in H; try discriminate.
+        destruct (clause_filter mt c g) as [nf| |] eqn:E; cbn [obind] in H; try discriminate.
+        refine (IH _ _ _ _ H). intros a Ha. inversion Ha; subst.
+        apply or_frames_cols; [exact (Hc _ _ E)|exact (Hfl acc' eq_refl)].
+  Qed.
+
+  (* filtering never touches the columns *)
+  Lemma clause_filter_cols : forall c g r, clause_filter mt c g = Ok r -> cols r = cols g.
+  Proof.
+    induction c as [l| |c IH|cs IH|cs IH] using gcp_clause_ind; intros g r H.
+    - exact (filter_leaves_cols g [l] r H).
+    - inversion H; reflexivity.
+    - rewrite clause_filter_not in H. destruct (ferr g); [inversion H; reflexivity|].
+      destruct (clause_err c); [inversion H; reflexivity|].
+      destruct c; try exact (filter_leaves_cols _ _ _ H);
+        (match type of H with context [clause_filter mt ?x g] => destruct (clause_filter mt x g) as [nf| |] eqn:E end;
+         cbn [obind] in H; try discriminate;
+         destruct (ferr nf); inversion H; subst; [eapply IH; exact E|reflexivity]).
+    - rewrite clause_filter_and in H. destruct (ferr g); [inversion H; reflexivity|].
+      destruct (clause_err (CAnd cs)); [inversion H; reflexivity|].
+      revert g r H. induction IH as [|c cs Hc Hcs IHl]; intros g r H; cbn [and_loop] in H; [inversion H; reflexivity|].
+      cbv beta in H. destruct (clause_filter mt c g) as [g'| |] eqn:E; cbn [obind] in H; try discriminate.
+      rewrite (IHl g' r H). eapply Hc; exact E.
+    - rewrite clause_filter_or in H. destruct (ferr g); [inversion H; reflexivity|].
+      destruct (clause_err (COr cs)); [inversion H; reflexivity|].
+      refine (or_loop_cols g cs IH [] None r _ H). intros a Ha; discriminate.
+  Qed.
+End Compose.
+
+Section Ext.
+  Variable mt : matcher_table.
+  Variable q1 : frame -> list leaf -> outcome frame.
+  Variable f0 : frame.
+  Variable Q : leaf -> Prop.
+  Hypothesis HQinv : forall l b, Q l -> Q (m_setInverse l b).
+  Hypothesis H12 : forall g ls, cols g = cols f0 -> Forall Q ls -> q1 g ls = filter_leaves mt g ls.
+
+  Notation GF q := (gc_FilterClause_filter Nat.eqb m_Err ix m_withErr with_ix q linv m_setInverse).
+
+  Definition ext_at (c : clause) : Prop :=
+    Forall Q (clause_leaves c) -> forall g, cols g = cols f0 -> GF q1 (embed c) g = GF (filter_leaves mt) (embed c) g.
+
+  Lemma gf_cols c g r : GF (filter_leaves mt) (embed c) g = Ok r -> cols r = cols g.
+  Proof. intro H. pose proof (g_filter_eq mt c g) as HE. unfold g_filter in HE. rewrite HE in H. exact (clause_filter_cols mt c g r H). Qed.
+
+  Lemma ext_and_loop cs : Forall ext_at cs -> Forall Q (flat_map clause_leaves cs) -> forall g, cols g = cols f0 ->
+    gc_AndClause_filter_loop1 (GF q1) (map embed cs) (Some g) = gc_AndClause_filter_loop1 (GF (filter_leaves mt)) (map embed cs) (Some g).
+  Proof.
+    induction 1 as [|c cs Hc Hcs IH]; intros HQ g Hg; [reflexivity|].
+    cbn [flat_map] in HQ. apply Forall_app in HQ as [HQc HQcs].
+    cbn [map gc_AndClause_filter_loop1 gc_deref obind]. rewrite (Hc HQc g Hg).
+    destruct (GF (filter_leaves mt) (embed c) g) as [g'| |] eqn:E; cbn [obind]; try reflexivity.
+    apply (IH HQcs). rewrite (gf_cols c g g' E). exact Hg.
+  Qed.
+
+  Definition or_tail (q : frame -> list leaf -> outcome frame) (g : frame) (p : list leaf * option frame) : outcome frame :=
+    let '(v_filters, v_filteredQf) := p in
+    do v_filteredQf <- (
+      if (0 <? (Z.of_nat (length v_filters))) then
+        do t7 <- q g v_filters;
+        let v_newQf := t7 in
+        do t8 <- gc_orFrames Nat.eqb m_Err ix with_ix (Some g) v_filteredQf (Some v_newQf);
+        let v_filteredQf := t8 in
+        Ok v_filteredQf
+      else
+        Ok v_filteredQf);
+    do t9 <- gc_deref v_filteredQf;
+    Ok t9.
+
+  Lemma ext_or_loop g cs : cols g = cols f0 -> Forall ext_at cs -> Forall Q (flat_map clause_leaves cs) ->
+    forall filters acc, Forall Q filters ->
+    (do p <- gc_OrClause_filter_loop1 Nat.eqb m_Err ix with_ix q1 (GF q1) (map embed cs) g filters acc; or_tail q1 g p)
+    = (do p <- gc_OrClause_filter_loop1 Nat.eqb m_Err ix with_ix (filter_leaves mt) (GF (filter_leaves mt)) (map embed cs) g filters acc;
+       or_tail (filter_leaves mt) g p).
+  Proof.
+    intros Hg. induction 1 as [|c cs Hc Hcs IH]; intros HQ filters acc Hfs.
+    - cbn [map gc_OrClause_filter_loop1 obind or_tail]. rewrite (H12 g filters Hg Hfs). reflexivity.
+    - cbn [flat_map] in HQ. apply Forall_app in HQ as [HQc HQcs].
+      pose proof (Hc HQc g Hg) as Hcg.
+      destruct c as [l|cs'|cs'|c'|]; cbn [embed] in Hcg; cbn [map embed gc_OrClause_filter_loop1].
+      1: { cbn [obind]. apply (IH HQcs). apply Forall_app. split; [exact Hfs|]. cbn in HQc. exact HQc. }
+      all: rewrite Hcg, (H12 g filters Hg Hfs);
+        destruct (0 <? Z.of_nat (length filters));
+        repeat (match goal with
+                | |- context [obind ?x _] =>
+                    lazymatch x with
+                    | gc_OrClause_filter_loop1 _ _ _ _ _ _ _ _ _ _ => fail
+                    | obind _ _ => fail
+                    | Ok _ => fail
+                    | _ => destruct x; cbn [obind]; try reflexivity
+                    end
+                end);
+        apply (IH HQcs); first [exact Hfs | constructor].
+  Qed.
+
+  Theorem gc_filter_ext : forall c, ext_at c.
+  Proof.
+    induction c as [l| |c IH|cs IH|cs IH] using gcp_clause_ind; intros HQ g Hg.
+    - cbn [embed gc_FilterClause_filter]. unfold gc_Filter_filter. rewrite (H12 g [l] Hg HQ). reflexivity.
+    - reflexivity.
+    - cbn [clause_leaves] in HQ. pose proof (IH HQ g Hg) as Hcg.
+      cbn [embed gc_FilterClause_filter]. unfold gc_NotClause_filter.
+      destruct c as [l|cs'|cs'|c'|]; cbn [embed] in Hcg |- *; try (rewrite Hcg; reflexivity).
+      rewrite (H12 g [m_setInverse l (negb (linv l))] Hg).
+      + reflexivity.
+      + constructor; [|constructor]. apply HQinv. cbn in HQ. now inversion HQ.
+    - cbn [clause_leaves] in HQ. cbn [embed gc_FilterClause_filter]. unfold gc_AndClause_filter.
+      rewrite (ext_and_loop cs IH HQ g Hg). reflexivity.
+    - cbn [clause_leaves] in HQ. cbn [embed gc_FilterClause_filter]. unfold gc_OrClause_filter.
+      pose proof (ext_or_loop g cs Hg IH HQ [] None (Forall_nil _)) as HL. unfold or_tail in HL.
+      destruct (negb (gc_isnil (m_Err g))); [reflexivity|].
+      destruct (gc_OrClause_Err (cerr (COr cs)) (map embed cs)) as [e| |]; cbn [obind]; try reflexivity.
+      destruct (negb (gc_isnil e)); [reflexivity|]. exact HL.
+  Qed.
+End Ext.
+
+(* ------------------------------------------------------------------ QFrame.Filter: translated text from the clause tree to the kernel call *)
+
+From QF Require Import Proofs.EnumOrderProofs.
+
+(* the generated QFrame.Filter of Gen/GenFilterClause.v whose column level qf.filter(filters...) is the generated
+   QFrame.filter of Gen/GenFilterDispatch.v (the leaves of the clause level are the model's leaves, handed to the
+   column level as Go values through leaf_go) *)
+Definition g_QFrame_Filter (f2i : N -> Z) (mt : matcher_table) (fuel : nat) : frame -> gclause -> outcome frame :=
+  gc_QFrame_Filter Nat.eqb m_Err ix m_withErr with_ix (fun g ls => g_QFrame_filter f2i mt fuel g (map leaf_go ls)) linv m_setInverse.
+
+Definition g_e_filterBuiltIn (mt : matcher_table) :=
+  @gd_e_Column_filterBuiltIn nat unit N SCm (list bytes) bitset FN1m FN2m m_new_error m_propagate (fun l => l)
+     m_e0 m_e1 m_e2 (m_eLike mt) m_eIn m_eBitset.
+
+Lemma g_Column_Filter_eqE f2i mt c fuel index (cmp : fcmp) (a : rarg) b : col_okE c -> (2 <= fuel)%nat -> rarg_ok f2i a ->
+  g_Column_Filter f2i mt fuel (col_go c) index (cmp_go cmp) (rarg_go a) b = res_go b (col_filter mt c index cmp a b).
+Proof. exact (gd_Column_Filter_eqE f2i mt c fuel index cmp a b). Qed.
+
+Lemma g_QFrame_filter_eqE f2i mt fuel f ls : (2 <= fuel)%nat -> frame_cols_okE f ->
+  Forall (fun l => arg_ok f2i (larg l)) ls ->
+  g_QFrame_filter f2i mt fuel f (map leaf_go ls) = filter_leaves mt f ls.
+Proof. exact (gd_QFrame_filter_eqE f2i mt fuel f ls). Qed.
+
+Lemma frame_cols_okE_cols f g : cols g = cols f -> frame_cols_okE f -> frame_cols_okE g.
+Proof. intros H Hf n c Hn. apply (Hf n c). unfold lookup_col, lookup in *. now rewrite <- H. Qed.
+
+(* a well-formed frame has at most 255 values per enum column *)
+Lemma wf_frame_cols_okE f : wf_frame f = true -> frame_cols_okE f.
+Proof.
+  intros H n c Hn. destruct (lookup_col_in _ _ _ Hn) as [m Hin].
+  unfold wf_frame in H. apply andb_prop in H as [H _]. rewrite forallb_forall in H.
+  specialize (H _ Hin). cbn [snd] in H. apply andb_prop in H as [_ H].
+  destruct c; cbn [col_okE]; try exact I. cbn [col_wf] in H. apply andb_prop in H as [_ H].
+  apply Nat.leb_le in H. change (N.to_nat c_maxCardinality) with 255%nat in H. lia.
+Qed.
+
+Theorem g_QFrame_Filter_eq' f2i mt fuel f (c : clause) : (2 <= fuel)%nat -> frame_cols_okE f ->
+  Forall (fun l => arg_ok f2i (larg l)) (clause_leaves c) ->
+  g_QFrame_Filter f2i mt fuel f (embed c) = frame_filter mt f c.
+Proof.
+  intros Hf Hc Hl. rewrite <- (g_QFrame_Filter_eq mt f c). unfold g_QFrame_Filter, gc_QFrame_Filter.
+  destruct (negb (gc_isnil (m_Err f))); [reflexivity|].
+  rewrite (gc_filter_ext mt (fun g ls => g_QFrame_filter f2i mt fuel g (map leaf_go ls)) f (fun l => arg_ok f2i (larg l))).
+  - reflexivity.
+  - intros l b H. exact H.
+  - intros g ls Hg Hls. apply g_QFrame_filter_eqE; [exact Hf| |exact Hls]. exact (frame_cols_okE_cols f g Hg Hc).
+  - exact Hl.
+  - reflexivity.
+Qed.
+
+(* C02's frame theorem (filter_meets_spec) on the translated text *)
+Definition g_C02_statement : Prop :=
+  forall (f2i : N -> Z) mt fuel f c,
+    (2 <= fuel)%nat -> Forall (fun l => arg_ok f2i (larg l)) (clause_leaves c) ->
+    c02_premises_b mt f c = true -> ix f <> [] ->
+    match filter_spec mt f c with
+    | VRows rows =>
+        g_QFrame_Filter f2i mt fuel f (embed c) = Ok (with_ix f rows)
+        /\ rows = filter (fun p => sat_true (clause_sat mt f c p)) (ix f)
+    | VError => exists g, g_QFrame_Filter f2i mt fuel f (embed c) = Ok g /\ ferr g = true
+    | VOpen | VFault => False
+    end.
+
+Theorem g_C02 : g_C02_statement.
+Proof.
+  intros f2i mt fuel f c Hf Hl Hp Hne.
+  assert (Hc : frame_cols_okE f).
+  { apply wf_frame_cols_okE. pose proof Hp as Hp'. unfold c02_premises_b in Hp'.
+    do 5 (apply andb_prop in Hp' as [Hp' _]). exact Hp'. }
+  rewrite (g_QFrame_Filter_eq' f2i mt fuel f c Hf Hc Hl). exact (filter_meets_spec mt f c Hp Hne).
+Qed.
+
+(* C17: an undeclared constant, on the translated text: the column level ... *)
+Lemma g_e_filter_undeclared mt d vals strict cmp op s index b :
+  (length vals <= 256)%nat -> cop_of cmp = Some op -> ~ In s vals ->
+  g_e_filterBuiltIn mt d vals strict index cmp (gd_any_string s) b
+  = if strict then Ok (Some tt, b)
+    else Ok (None, if match op with ONe => true | _ => false end then map (fun _ => true) b else b).
+Proof.
+  intros Hlen Hop Hin. change (@gd_any_string N SCm FN1m FN2m s) with (rarg_go (RConst (AStr s))).
+  unfold g_e_filterBuiltIn. rewrite (gd_e_builtin_eq mt d vals strict index cmp (RConst (AStr s)) b Hlen).
+  rewrite (enum_filter_undeclared mt d vals strict cmp op s index b Hop Hin). destruct strict; reflexivity.
+Qed.
+
+(* ... and the frame level: with declared values Err is set, for each of the six operators *)
+Lemma g_frame_filter_undeclared f2i mt fuel (f : frame) col d vals cmp op s :
+  (2 <= fuel)%nat -> frame_cols_okE f ->
+  ferr f = false -> lookup_col f col = Some (ECol d vals true) -> cop_of cmp = Some op -> ~ In s vals ->
+  g_QFrame_Filter f2i mt fuel f (embed (CLeaf (mkLeaf col (CmpName cmp) (AStr s) false))) = Ok (with_err f).
+Proof.
+  intros Hf Hc He Hl Hop Hin.
+  rewrite (g_QFrame_Filter_eq' f2i mt fuel f _ Hf Hc) by (repeat constructor).
+  exact (enum_frame_filter_undeclared mt f col d vals cmp op s He Hl Hop Hin).
+Qed.
